@@ -11,6 +11,9 @@ Line protocol of C19 (state machine over a parameter space; see harness/c19.py).
   rm <name> | mv <cur> <new>                                                      -> ok|E <view>
   nrm|unr <minus_lb> <use_dist> <x> [T...]   (un)normalize_vect, 1-D              -> rats | E
   nrm2|unr2 <minus_lb> <use_dist> <rows ;> [T...]                                 -> rows | E
+  nrm|unr|nrm2|unr2 new|alias <minus_lb> <use_dist> <x> [T...]   the same call with `out` = another
+        array / the input array itself, run on the store of arrays       -> ret=.. out=.. x=.. | E
+        (content after the call of the returned array, of `out` and of the input array)
   ecdf <inverse> name=vals ... [T...]        evaluate_cdf                          -> dict | E
   sdict <row>                                compute_samples(as_dict) splitting    -> dict
   ssup                                       supports of the sample columns        -> lb:ub,...
@@ -131,6 +134,30 @@ def step (s : DSt) (line : String) : DSt × String :=
         let r := if op == "nrm2" then p.normalizeVect2 env (m == "1") (u == "1") x
                  else p.unnormalizeVect2 env (m == "1") (u == "1") x
         (s, match r with | some y => showRows y | none => "E")
+      | none => (s, "bad-op")
+    else (s, "bad-op")
+  | [op, md, m, u, x] =>
+    if md != "new" && md != "alias" then (s, "bad-op") else
+    let out : Option Nat := some (if md == "alias" then 0 else 1)
+    if op == "nrm" || op == "unr" then
+      match parseRatList? x with
+      | some x =>
+        let h : Heap (List Rat) := if md == "alias" then [x] else [x, x.map (fun _ => -7)]
+        let r := if op == "nrm" then p.normalizeVectOut env (m == "1") (u == "1") h 0 out
+                 else p.unnormalizeVectOut env (m == "1") (u == "1") h 0 out
+        (s, match r with
+          | some (h', a) => s!"ret={showRatList (h'.read a)} out={showRatList (h'.read (out.getD 0))} x={showRatList (h'.read 0)}"
+          | none => "E")
+      | none => (s, "bad-op")
+    else if op == "nrm2" || op == "unr2" then
+      match parseRows? x with
+      | some x =>
+        let h : Heap (List (List Rat)) := if md == "alias" then [x] else [x, x.map (·.map (fun _ => -7))]
+        let r := if op == "nrm2" then p.normalizeVect2Out env (m == "1") (u == "1") h 0 out
+                 else p.unnormalizeVect2Out env (m == "1") (u == "1") h 0 out
+        (s, match r with
+          | some (h', a) => s!"ret={showRows (h'.read a)} out={showRows (h'.read (out.getD 0))} x={showRows (h'.read 0)}"
+          | none => "E")
       | none => (s, "bad-op")
     else (s, "bad-op")
   | ["sdict", row] =>
